@@ -509,3 +509,104 @@ Proof.
         first [apply good_no_esc; assumption|apply no_bsl_ends, good_no_bsl; assumption]. }
     apply strips_sgr_strip, HS.
 Qed.
+
+(* the segments of a line are fine *)
+Lemma tag_char_good c : tag_char c = true -> good c.
+Proof. intros H. split; intros ->; vm_compute in H; discriminate. Qed.
+Lemma tag_start_char c : tag_start c = true -> tag_char c = true.
+Proof. intros H. unfold tag_char. now rewrite H. Qed.
+Lemma tag_name_good nm : tag_name nm -> Forall good nm.
+Proof.
+  destruct nm as [|c r]; [contradiction|]. intros [Hc Hr]. constructor; [apply tag_char_good, tag_start_char, Hc|].
+  eapply Forall_impl; [|exact Hr]. exact tag_char_good.
+Qed.
+Lemma good_char c : c <> ESC -> c <> BSL -> good c. Proof. split; assumption. Qed.
+Lemma open_tag_good nm : tag_name nm -> Forall good (open_tag nm).
+Proof.
+  intros Hn. unfold open_tag. constructor; [split; discriminate|]. apply Forall_app; split; [apply tag_name_good, Hn|].
+  constructor; [split; discriminate|constructor].
+Qed.
+Lemma close_tag_good nm : tag_name nm -> Forall good (close_tag nm).
+Proof.
+  intros Hn. unfold close_tag. constructor; [split; discriminate|]. constructor; [split; discriminate|].
+  apply Forall_app; split; [apply tag_name_good, Hn|]. constructor; [split; discriminate|constructor].
+Qed.
+Lemma close_any_good : Forall good close_any.
+Proof. unfold close_any. repeat constructor; discriminate. Qed.
+
+Lemma inner_fine nm : tag_name nm -> forall x cur, no_esc x -> no_esc cur ->
+  Forall seg_fine (inner_segs (otag nm) x cur) /\ no_esc (inner_cur x cur).
+Proof.
+  intros Hn. induction x as [|c r IH]; intros cur Hx Hcur; cbn [inner_segs inner_cur]; [split; [constructor|exact Hcur]|].
+  inversion Hx as [|? ? Hc Hr]; subst.
+  assert (no_esc (cur ++ [c])) as Hcc by (apply Forall_app; split; [exact Hcur|constructor; [exact Hc|constructor]]).
+  destruct (N.eqb_spec c LT) as [->|Hlt]; [|apply IH; assumption].
+  destruct (IH [] Hr (Forall_nil _)) as [H1 H2]. split; [|exact H2].
+  constructor; [|constructor; [|exact H1]].
+  - split; [exact Hcc|]. split; [apply ends_lt|apply close_any_good].
+  - split; [constructor|]. split; [reflexivity|apply open_tag_good, Hn].
+Qed.
+
+(* no ESC in the texts *)
+Definition piece_noesc (p : piece) : Prop := match p with PRaw t => no_esc t | PLit _ s => no_esc s | PNamed _ s => no_esc s end.
+Definition pieces_noesc (ps : list piece) : Prop := Forall piece_noesc ps.
+Lemma lit_body_noesc s : no_esc s -> no_esc (lit_body s).
+Proof.
+  intros Hs. unfold lit_body. pose proof (double_bsl_P _ s Hs) as Hd. destruct (ends_with_bsl s); [|exact Hd].
+  apply Forall_app; split; [exact Hd|]. constructor; [discriminate|constructor].
+Qed.
+Lemma piece_fine sty p cur : piece_ok sty p -> piece_noesc p -> Forall good cur ->
+  Forall seg_fine (piece_segs p cur) /\ Forall good (piece_cur p cur).
+Proof.
+  destruct p as [t|tag s|nm s]; cbn [piece_ok piece_noesc piece_segs piece_cur].
+  - intros Ht Ht' Hcur. split; [constructor|]. apply Forall_app; split; [exact Hcur|].
+    unfold safe, no_esc in *. rewrite Forall_forall in *. intros c Hin. split; [apply Ht', Hin|apply (Ht c Hin)].
+  - intros [Hn _] Hs Hcur. split; [|constructor].
+    destruct (inner_fine tag Hn (lit_body s) [] (lit_body_noesc s Hs) (Forall_nil _)) as [H1 H2].
+    constructor; [|apply Forall_app; split; [exact H1|constructor; [|constructor]]].
+    + split; [apply good_no_esc, Hcur|]. split; [apply no_bsl_ends, good_no_bsl, Hcur|apply open_tag_good, Hn].
+    + split; [exact H2|]. split; [|apply close_any_good]. cbn [fst]. rewrite inner_cur_ends. cbn [app]. apply ends_lit_body.
+  - intros [Hn _] Hs Hcur. split; [|constructor].
+    destruct (inner_fine nm Hn (lit_body s) [] (lit_body_noesc s Hs) (Forall_nil _)) as [H1 H2].
+    constructor; [|apply Forall_app; split; [exact H1|constructor; [|constructor]]].
+    + split; [apply good_no_esc, Hcur|]. split; [apply no_bsl_ends, good_no_bsl, Hcur|apply open_tag_good, Hn].
+    + split; [exact H2|]. split; [|apply close_tag_good, Hn]. cbn [fst]. rewrite inner_cur_ends. cbn [app]. apply ends_lit_body.
+Qed.
+Lemma line_fine sty : forall ps, pieces_ok sty ps -> pieces_noesc ps -> forall cur, Forall good cur ->
+  Forall seg_fine (line_segs ps cur) /\ Forall good (line_cur ps cur).
+Proof.
+  induction 1 as [|p r Hp Hr IH]; intros Hne cur Hcur; cbn [line_segs line_cur]; [split; [constructor|exact Hcur]|].
+  inversion Hne as [|? ? Hp' Hr']; subst.
+  destruct (piece_fine sty p cur Hp Hp' Hcur) as [H1 H2]. destruct (IH Hr' _ H2) as [H3 H4].
+  split; [apply Forall_app; split; assumption|exact H4].
+Qed.
+
+(* D. a whole line, decorated: the rendering never fails, leaves the style stack as it was, and shows the same text *)
+Theorem line_decorated sty sk ps : pieces_ok sty ps -> pieces_noesc ps ->
+  exists out, colorize sty true sk (line_str ps) = Ok (sk, out) /\ strip_sgr out = flat_map piece_shown ps.
+Proof.
+  intros Hok Hne. pose proof (colorize_lockstep_gen sty sk (line_str ps) (line_str_ends sty ps Hok)) as HL.
+  rewrite (lex_line sty ps Hok) in HL. cbn [fst snd] in HL.
+  destruct (line_fine sty ps Hok Hne [] (Forall_nil _)) as [H1 H2]. specialize (HL H1 H2).
+  rewrite (line_plain sty sk ps Hok) in HL.
+  destruct (colorize sty true sk (line_str ps)) as [[s1 o1]|e]; [|contradiction].
+  destruct HL as [-> HS]. exists o1. split; [reflexivity|exact HS].
+Qed.
+Corollary line_never_raises sty sk col ps : pieces_ok sty ps -> pieces_noesc ps ->
+  exists out, colorize sty col sk (line_str ps) = Ok (sk, out).
+Proof.
+  intros Hok Hne. destruct col; [|eexists; apply (line_plain sty sk ps Hok)].
+  destruct (line_decorated sty sk ps Hok Hne) as (out & H & _). exists out. exact H.
+Qed.
+Theorem literal_decorated sty sk tag p s : tag_name tag -> resolve sty (py_lower tag) = Ok (Some p) -> no_esc s ->
+  exists out, colorize sty true sk (tagged tag (literal s tag)) = Ok (sk, out) /\ strip_sgr out = shown s.
+Proof.
+  intros Hn Hr Hs. pose proof (line_decorated sty sk [PLit tag s]) as H. cbn [line_str flat_map piece_str piece_shown] in H.
+  rewrite !app_nil_r in H. apply H; (constructor; [|constructor]); [|exact Hs]. split; [exact Hn|]. exists p. exact Hr.
+Qed.
+Theorem literal_named_decorated sty sk nm p s : tag_name nm -> resolve sty (py_lower nm) = Ok (Some p) -> no_esc s ->
+  exists out, colorize sty true sk (open_tag nm ++ literal s nm ++ close_tag nm) = Ok (sk, out) /\ strip_sgr out = shown s.
+Proof.
+  intros Hn Hr Hs. pose proof (line_decorated sty sk [PNamed nm s]) as H. cbn [line_str flat_map piece_str piece_shown] in H.
+  rewrite !app_nil_r in H. apply H; (constructor; [|constructor]); [|exact Hs]. split; [exact Hn|]. exists p. exact Hr.
+Qed.
